@@ -161,6 +161,9 @@ type handler struct {
 	pendingMsg atomic.Pointer[announce.Announce]
 	// expires is the time the handler is removed if it remains idle.
 	expires time.Time
+	// expSyncs is the number of explicit syncs that have obtained this handler
+	// and have not returned yet. Guarded by Subscriber.handlersMutex.
+	expSyncs int
 	// syncer is a sync client for this handler's peer.
 	syncer Syncer
 }
@@ -434,7 +437,8 @@ func (s *Subscriber) SyncAdChain(ctx context.Context, peerInfo peer.AddrInfo, op
 
 	log := log.With("peer", peerInfo.ID)
 
-	hnd := s.getOrCreateHandler(peerInfo.ID)
+	hnd := s.getOrCreateHandler(peerInfo.ID, true)
+	defer s.doneWithHandler(hnd)
 
 	syncer, updatePeerstore, err := hnd.makeSyncer(peerInfo, true)
 	if err != nil {
@@ -585,7 +589,8 @@ func (s *Subscriber) syncEntries(ctx context.Context, peerInfo peer.AddrInfo, en
 		return err
 	}
 
-	hnd := s.getOrCreateHandler(peerInfo.ID)
+	hnd := s.getOrCreateHandler(peerInfo.ID, true)
+	defer s.doneWithHandler(hnd)
 
 	syncer, _, err := hnd.makeSyncer(peerInfo, false)
 	if err != nil {
@@ -662,8 +667,9 @@ func (s *Subscriber) distributeEvents() {
 }
 
 // getOrCreateHandler returns an existing handler or creates a new one for the
-// specified peer (publisher).
-func (s *Subscriber) getOrCreateHandler(peerID peer.ID) *handler {
+// specified peer (publisher). If explicitSync is true, then the handler is
+// counted as in use by an explicit sync until doneWithHandler is called.
+func (s *Subscriber) getOrCreateHandler(peerID peer.ID, explicitSync bool) *handler {
 	expires := time.Now().Add(s.idleHandlerTTL)
 
 	s.handlersMutex.Lock()
@@ -681,8 +687,20 @@ func (s *Subscriber) getOrCreateHandler(peerID peer.ID) *handler {
 		}
 		s.handlers[peerID] = hnd
 	}
+	if explicitSync {
+		hnd.expSyncs++
+	}
 
 	return hnd
+}
+
+// doneWithHandler tells that an explicit sync, that obtained the handler from
+// getOrCreateHandler, has returned.
+func (s *Subscriber) doneWithHandler(hnd *handler) {
+	s.handlersMutex.Lock()
+	hnd.expSyncs--
+	hnd.expires = time.Now().Add(s.idleHandlerTTL)
+	s.handlersMutex.Unlock()
 }
 
 // idleHandlerCleaner periodically looks for idle handlers to remove. This
@@ -712,9 +730,11 @@ func (s *Subscriber) idleHandlerCleaner() {
 // idle reports whether the handler has no sync running or waiting to run and
 // no announcement pending. A handler whose sync outlasts the idle-handler TTL
 // must not be removed: a replacement handler would have its own locks, and a
-// second sync of the same publisher could then run at the same time.
+// second sync of the same publisher could then run at the same time. An
+// explicit sync uses its handler from the moment it obtains it, which is
+// before it takes any of the handler's locks. The caller holds handlersMutex.
 func (h *handler) idle() bool {
-	if h.pendingMsg.Load() != nil {
+	if h.expSyncs != 0 || h.pendingMsg.Load() != nil {
 		return false
 	}
 	if !h.asyncMutex.TryLock() {
@@ -745,7 +765,7 @@ func (s *Subscriber) watch() {
 		}
 
 		verifhook.Point("watch.recv", amsg.PeerID)
-		hnd := s.getOrCreateHandler(amsg.PeerID)
+		hnd := s.getOrCreateHandler(amsg.PeerID, false)
 
 		// Set the message to be handled by the waiting goroutine.
 		oldMsg := hnd.pendingMsg.Swap(&amsg)
